@@ -9,6 +9,15 @@ import (
 	"os"
 	"strings"
 	"testing"
+	"time"
+
+	"context"
+
+	"github.com/cosmos/cosmos-sdk/codec"
+	codectypes "github.com/cosmos/cosmos-sdk/codec/types"
+	"github.com/palomachain/paloma/v2/util/libcons"
+	consensustypes "github.com/palomachain/paloma/v2/x/consensus/types"
+	evmtypes "github.com/palomachain/paloma/v2/x/evm/types"
 
 	sdkmath "cosmossdk.io/math"
 	sdk "github.com/cosmos/cosmos-sdk/types"
@@ -25,7 +34,15 @@ import (
 
 var c08EnvVars = []string{"PALOMA_FF_PIGEON_STATUS_UPDATE", "PIGEON_HEALTHCHECK_PORT"}
 
+var c08ZoneB = time.FixedZone("verif-west", -8*3600)
+
 func c08SetEnv(on bool) {
+	// the twins also run in different local time zones (what TZ would do for a node)
+	if on {
+		time.Local = c08ZoneB
+	} else {
+		time.Local = time.UTC
+	}
 	for _, v := range c08EnvVars {
 		if on {
 			os.Setenv(v, "1")
@@ -102,6 +119,8 @@ func TestC08(t *testing.T) {
 	r := NewRec(t, "C08")
 	defer r.Close()
 	blocks := int(envInt("VERIF_BLOCKS", 130))
+	defer func() { time.Local = time.UTC }()
+	c08RepeatedEvaluation(t, r)
 	for c := 0; c < r.N; c++ {
 		seed := r.Rng.Int63()
 		if c%2 == 1 {
@@ -196,9 +215,27 @@ func c08ZooCase(t *testing.T, r *Rec, seed int64) {
 		r.Hit("twin_execution_equal", "twins differ right after world construction", map[string]interface{}{"seed": seed, "stores": FADiffDigests(wa.FA.StoreDigest(), wb.FA.StoreDigest())})
 		return
 	}
+	// jump both twins to the small hours (UTC) of the first day after a short month, where local
+	// and UTC calendar dates differ and month arithmetic in the local zone gives another instant
+	starts := []string{"2025-03-01T01:30:00Z", "2024-05-01T03:00:00Z", "2026-03-01T00:10:00Z", "2025-10-01T05:00:00Z"}
+	jump, _ := time.Parse(time.RFC3339, starts[ctl.Intn(len(starts))])
+	for ti, w := range []*ZooWorld{wa, wb} {
+		c08SetEnv(ti == 1)
+		w.FA.NextTime = jump
+		w.FA.NextBlock()
+	}
+	lnIdx := -1
+	for i, m := range zoo {
+		if m.Name == "paloma.RegisterLightNodeClient" {
+			lnIdx = i
+		}
+	}
 	txs := 0
 	for op := 0; op < 70; op++ {
 		idx := ctl.Intn(len(zoo))
+		if lnIdx >= 0 && ctl.Intn(8) == 0 {
+			idx = lnIdx
+		}
 		hostile := ctl.Intn(10) < 4
 		gov := ctl.Intn(2) == 0
 		restart := ctl.Intn(30) == 0
@@ -252,4 +289,47 @@ func c08ZooCase(t *testing.T, r *Rec, seed int64) {
 	}
 	r.Case(fmt.Sprint("twinzoo|", seed), txs >= 10)
 	r.Stats["txs"] += txs
+}
+
+// c08RepeatedEvaluation: evidence tallying and relayer selection must give the same answer every
+// time they are evaluated on the same state (Go randomises map iteration per range statement).
+func c08RepeatedEvaluation(t *testing.T, r *Rec) {
+	reg := codectypes.NewInterfaceRegistry()
+	evmtypes.RegisterInterfaces(reg)
+	cdc := codec.NewProtoCodec(reg)
+	for i := 0; i < 40; i++ {
+		vals, total := r.c04GenVals()
+		c := c04Case{total: total, vals: vals}
+		nh := 2 + r.Rng.Intn(2)
+		var evs []libcons.Evidence
+		var desc []string
+		for _, v := range vals {
+			h := 1 + r.Rng.Intn(nh)
+			any, _ := codectypes.NewAnyWithValue(&evmtypes.SmartContractExecutionErrorProof{ErrorMessage: fmt.Sprint("h", h)})
+			evs = append(evs, &consensustypes.Evidence{ValAddress: valAddrOf(int(v.a.Int64())), Proof: any})
+			desc = append(desc, fmt.Sprintf("%s:%s->h%d", v.a, v.b, h))
+		}
+		snap := r.c04Snapshot(c)
+		checker := libcons.New(func(context.Context) (*valsettypes.Snapshot, error) { return snap, nil }, cdc)
+		seen := map[string]int{}
+		for k := 0; k < 24; k++ {
+			res, err := checker.VerifyEvidence(context.Background(), evs)
+			out := "notachieved"
+			if err == nil && res != nil && res.Winner != nil {
+				out = res.Winner.(*evmtypes.SmartContractExecutionErrorProof).ErrorMessage
+			} else if err != nil && err != libcons.ErrConsensusNotAchieved {
+				out = "error"
+			}
+			seen[out]++
+		}
+		line := fmt.Sprintf("block 0 %d", i)
+		out := "equal"
+		if len(seen) > 1 && total.Sign() > 0 {
+			out = "diverged"
+			r.Hit("repeated_evaluation_equal", fmt.Sprintf("VerifyEvidence on one snapshot and one evidence list gave %v over 24 evaluations", seen),
+				map[string]interface{}{"total": total.String(), "evidence": desc})
+		}
+		r.Op(line, out)
+		r.Stat("repeat.evidence")
+	}
 }
